@@ -192,7 +192,7 @@ class Opts:
     def __init__(self, max_classes=6, max_comps=4, max_depth=4, arrays=True, aliases=True,
                  packages=True, nested_models=True, extends=True, mods="decl", eqs=True,
                  multi_extends=True, prefixes=True, values=True, ieqs=True, der=True,
-                 foreign_bases=True, on_exclude=None):
+                 foreign_bases=True, on_exclude=None, time=True, param_subscripts=True):
         self.__dict__.update(locals())
         del self.__dict__["self"]
 
@@ -248,23 +248,29 @@ def leaf_paths(lib_classes, cid, kinds=("Real", "Integer", "Boolean"), memo=None
 
 
 @st.composite
-def eq_expr(draw, refs, depth=2):
+def eq_expr(draw, refs, depth=2, time=False):
     """Small fully determined arithmetic over references (printed by the
     minimal printer; + - * and unary minus on a leaf only, so the parsed tree
     mirrors the abstract one node for node)."""
     if depth <= 0 or draw(st.integers(0, 2)) == 0:
-        k = draw(st.integers(0, 3))
+        k = draw(st.integers(0, 4 if time else 3))
+        if k == 4:
+            return ["time"]  # a reference that is not a variable of the model
         if k == 0 or not refs:
             return draw(st.sampled_from([["int", 1], ["int", 3], ["real", "2.5"]]))
         return draw(st.sampled_from(refs))
     op = draw(st.sampled_from(["+", "-", "*"]))
-    return ["bin", op, draw(eq_expr(refs, depth - 1)), draw(eq_expr(refs, depth - 1))]
+    return ["bin", op, draw(eq_expr(refs, depth - 1, time)), draw(eq_expr(refs, depth - 1, time))]
 
 
-def ref_node(path, comp):
+def ref_node(path, comp, nparam=None):
     name = ".".join(path)
     if comp.get("dims"):
-        return ["idx", name] + [1 + (len(name) + i) % d for i, d in enumerate(comp["dims"])]
+        subs = [1 + (len(name) + i) % d for i, d in enumerate(comp["dims"])]
+        if nparam is not None:
+            # subscript given by an Integer parameter of the class that writes the equation (value 1: always in range)
+            subs[0] = ["var", nparam]
+        return ["idx", name] + subs
     return ["var", name]
 
 
@@ -373,7 +379,12 @@ def library(draw, opts=None):
         # equations over reachable Real leaves
         if o.eqs:
             leaves = [(p, lc) for p, lc, bt in leaf_paths(classes, cid) if bt == "Real"]
-            refs = [ref_node(p, lc) for p, lc in leaves]
+            nparam = None
+            if o.param_subscripts and any(lc.get("dims") for _, lc in leaves) and draw(st.booleans()):
+                nparam = "n" + cid
+                c["comps"].append({"name": nparam, "cls": "Integer", "prefixes": ["parameter"], "dims": [], "mods": [],
+                                   "value": ["int", 1]})
+            refs = [ref_node(p, lc, nparam if (nparam and lc.get("dims") and draw(st.booleans())) else None) for p, lc in leaves]
             plain = [(p, lc) for p, lc in leaves if not lc.get("dims")
                      and not ({"parameter", "constant", "input"} & set(lc.get("prefixes", [])))]
             for _ in range(draw(st.integers(0, 3))):
@@ -384,7 +395,7 @@ def library(draw, opts=None):
                     lhs = ["der", ["var", ".".join(p)]]
                 else:
                     lhs = draw(st.sampled_from(refs))
-                c["eqs"].append([lhs, draw(eq_expr(refs))])
+                c["eqs"].append([lhs, draw(eq_expr(refs, 2, o.time))])
             if o.ieqs and plain and draw(st.integers(0, 4)) == 0:
                 p, lc = draw(st.sampled_from(plain))
                 c["ieqs"].append([["var", ".".join(p)], draw(eq_expr(refs, 1))])
